@@ -232,20 +232,36 @@ def supremum_matrix():
     need(len(tree) == 2 and isinstance(tree[0], ast.For) and isinstance(tree[1], ast.Return)
          and ast.unparse(tree[1].value) == "distance", "_supremum_distance_matrix_rp: for + return")
     fj = tree[0]
-    need(ast.unparse(fj.target) == "j" and ast.unparse(fj.iter) == "range(T)" and not fj.orelse
+    need(ast.unparse(fj.target) == "j" and not fj.orelse
          and len(fj.body) == 1 and isinstance(fj.body[0], ast.For),
          "_supremum_distance_matrix_rp: outer loop")
     fk = fj.body[0]
-    need(ast.unparse(fk.target) == "k" and ast.unparse(fk.iter) == "range(j)" and not fk.orelse
+    need(ast.unparse(fk.target) == "k" and not fk.orelse
          and len(fk.body) == 3, "_supremum_distance_matrix_rp: middle loop")
+
+    def range1(f, env, what):
+        need(isinstance(f.iter, ast.Call) and ast.unparse(f.iter.func) == "range"
+             and len(f.iter.args) == 1 and not f.iter.keywords, what + ": range(<one bound>) expected")
+        return int_expr(f.iter.args[0], env)
+    # round 5: the bounds of the two outer loops and the targets of the store are TRANSLATED (the
+    # loops are emitted as folds, `supremum_rp_loops`); `Properties/C08.lean` proves the folds equal
+    # to the closed form below
+    bound_j = range1(fj, {"T": "T"}, "_supremum_distance_matrix_rp: outer loop")
+    bound_k = range1(fk, {"T": "T", "j": "j"}, "_supremum_distance_matrix_rp: middle loop")
     a0, fl, st = fk.body
     need(isinstance(a0, ast.Assign) and ast.unparse(a0) == "diff = 0",
          "_supremum_distance_matrix_rp: diff = 0")
     need(isinstance(fl, ast.For) and ast.unparse(fl.target) == "l" and
          ast.unparse(fl.iter) == "range(D)" and not fl.orelse, "_supremum_distance_matrix_rp: l loop")
-    need(isinstance(st, ast.Assign) and
-         sorted(ast.unparse(t) for t in st.targets) == ["distance[j, k]", "distance[k, j]"]
-         and ast.unparse(st.value) == "diff", "_supremum_distance_matrix_rp: symmetric store")
+    need(isinstance(st, ast.Assign) and ast.unparse(st.value) == "diff" and len(st.targets) >= 1,
+         "_supremum_distance_matrix_rp: store of diff")
+    stores = []
+    for t in st.targets:                      # chained assignment: targets left to right
+        need(isinstance(t, ast.Subscript) and ast.unparse(t.value) == "distance"
+             and isinstance(t.slice, ast.Tuple) and len(t.slice.elts) == 2,
+             "_supremum_distance_matrix_rp: store target " + ast.unparse(t))
+        ia, ib = (int_expr(x, {"j": "j", "k": "k", "T": "T"}) for x in t.slice.elts)
+        stores.append(f"let distance := store2 distance {ia} {ib} diff")
     env = {"j": "j", "k": "k", "l": "l", "diff": "diff", "@array": "embedding"}
     lets = sup_fold(fl, env, "temp_diff", "_supremum_distance_matrix_rp")
     return (f"/- numerics.pyx:{no}  {header}\n{txt.strip()}\n-/\n"
@@ -263,7 +279,19 @@ def supremum_matrix():
             "  let T := n_time\n  let D := dim\n"
             "  if 0 ≤ b ∧ b < a ∧ a < T then supremum_rp_entry O a b D embedding\n"
             "  else if 0 ≤ a ∧ a < b ∧ b < T then supremum_rp_entry O b a D embedding\n"
-            "  else O.zero\n")
+            "  else O.zero\n\n"
+            "/-- round 5: the two outer loops AS WRITTEN (bounds and store targets translated from the "
+            "source): `distance`\nstarts as `np.zeros`, every iteration stores `diff` -/\n"
+            "def supremum_rp_loops {α : Type} (O : FOps α) (n_time dim : Int) "
+            "(embedding : Int → Int → α) : Int → Int → α :=\n"
+            "  let T := n_time\n  let D := dim\n"
+            f"  (List.range ({bound_j}).toNat).foldl (fun (distance : Int → Int → α) (j : Nat) =>\n"
+            "    let j : Int := j\n"
+            f"    (List.range ({bound_k}).toNat).foldl (fun (distance : Int → Int → α) (k : Nat) =>\n"
+            "      let k : Int := k\n"
+            "      let diff := supremum_rp_entry O j k D embedding\n" +
+            "".join(f"      {x}\n" for x in stores) +
+            "      distance) distance) (fun _ _ => O.zero)\n")
 
 
 # ---------------------------------------------------------------------------------------------
@@ -594,7 +622,7 @@ def main():
              "import Pyunicorn.Model.LineDistFloat",
              "namespace Pyunicorn.Generated.StructC08",
              "open Pyunicorn.Recurrence (V)",
-             "open Pyunicorn.LineDist (FOps vOps)\n"]
+             "open Pyunicorn.LineDist (FOps vOps store2)\n"]
     for name, args, src, body in inline_helpers():
         parts.append(f"/- {src} -/\ndef {name} ({' '.join(args)} : Int) : Int := {body}\n")
     parts.append(metric_supremum())
